@@ -115,7 +115,8 @@ def eraseFocus (li : Option Item) (pos size : Nat) : Focus :=
   if li.isSome then (li, pos, size) else (none, 1, 1)
 
 def eraseObj (o : FObj) : SObj :=
-  { code := o.code, lex := o.lex, fixed := o.fixed, focus := eraseFocus o.flitem o.fpos o.fsize }
+  { code := o.code, lex := o.lex, fixed := o.fixed, focus := eraseFocus o.flitem o.fpos o.fsize,
+    sig := o.sig }
 def eraseHeap (h : List FObj) : SHeap := h.map eraseObj
 def eraseCtx (c : ICtx) : SCtx :=
   { lex := c.lex, item := c.litem, pos := (eraseFocus c.litem c.pos c.size).2.1,
